@@ -484,6 +484,10 @@ rewrite -mulmxA -{1}[row i Jm]trmxK.
 exact: (quad_ge0 spec_stats_unit).
 Qed.
 
+(* a sample at which the whole model-function Jacobian row vanishes has sigma_i = 0 exactly, whatever the covariance *)
+Lemma sig2_zero_row (i : 'I_n) : row i Jm = 0 -> nth 0 (st_sig2 st) i = 0.
+Proof. by move=> h; rewrite sig2_form h !mul0mx mxE. Qed.
+
 Lemma sig2_ge0 : all (fun x : F => 0 <= x) (st_sig2 st).
 Proof.
 apply/(all_nthP 0) => i; rewrite size_sig2 => lt_in.
